@@ -406,6 +406,10 @@ def write_parse_pool(sdir, size='quick'):
         ('$.x[?($.a.f3() == @.b.nosuch())]', C2),
         # a Config without functions of one kind right after one that has them
         ('$.a.f1()', C3), ('$.a.f1()', C5), ('$.x.b.g1()', C6), ('$.x.b.g1()', C3),
+        # no Config at all after Configs with functions; the same names bound to other implementations; two Configs in one call
+        ('$.x.b.g1()', C0), ('$.a.f1()', dict(C1, variant=2, cname='f1,f2,g1 (other implementations)')), ('$.x.b.g1()', dict(C4, variant=2, cname='f1,f2,g1+accessor (other implementations)')),
+        ('$.a.f1()', dict(C1, extra=True, cname='f1,f2,g1 + a second Config')), ('$.a.f9()', dict(C1, extra=True, cname='f1,f2,g1 + a second Config')),
+        ('$[?(@.a =~ /(/)]', C0),
     ]
     if size != 'quick':
         pool += [('$..a', C3), ('$[?(@.a.f1() == 1)]', C4), ('$.x[?(@.a =~ /a/)]', C0), ('$.x[?(@.a == "1\\")]', C0), ('*', C0), ('$[0:1]', C3),
@@ -414,5 +418,6 @@ def write_parse_pool(sdir, size='quick'):
     with open(p, 'w') as f:
         for text, c in pool:
             cp = lambda s: [ord(ch) for ch in s]
-            f.write(json.dumps({'name': text + ' | ' + c['cname'], 's': cp(text), 'cfg': {'ff': [cp(x) for x in c['ff']], 'af': [cp(x) for x in c['af']]}, 'acc': c['acc']}) + '\n')
+            f.write(json.dumps({'name': text + ' | ' + c['cname'], 's': cp(text), 'cfg': {'ff': [cp(x) for x in c['ff']], 'af': [cp(x) for x in c['af']]}, 'acc': c['acc'],
+                                'variant': c.get('variant', 1), 'extra': c.get('extra', False)}) + '\n')
     return p, len(pool)
